@@ -69,6 +69,7 @@ type Options struct {
 	MaxSteps     int   // hard cap on scheduler steps (0: 1e6)
 	Quantum      int64 // >0: preemptive; each release gets Quantum..2*Quantum-1 ticks drawn from QRand
 	QRand        *Rand
+	QGrow        int // >0: the quantum doubles after every QGrow steps, which bounds the steps of a long run
 	Policy       Policy
 	Picks        []int // recorded picks (Policy.Kind == "recorded")
 	KeepTrace    int   // keep at most this many trace events (hash always covers all)
@@ -300,8 +301,15 @@ func Run(t *testing.T, opt Options, body func()) (res Result) {
 			pk.last = tk.ID
 			if opt.Quantum > 0 {
 				q := opt.Quantum
+				if opt.QGrow > 0 {
+					sh := uint(res.Steps / opt.QGrow)
+					if sh > 24 {
+						sh = 24
+					}
+					q <<= sh
+				}
 				if opt.QRand != nil {
-					q += int64(opt.QRand.Intn(int(opt.Quantum)))
+					q += int64(opt.QRand.Intn(int(q)))
 				}
 				simrt.SetQuantum(q)
 			}
